@@ -9,10 +9,17 @@ SPEC = dict(
     rule="single-joint systems Ground->body: 18 built-in types x {identity, translation-only, general} inboard x outboard "
          "frames x forward/reversed x quaternion/Euler, random q,u (angles away from Euler singularities, quaternions "
          "normalised or not) from VERIF_SEED; distinct = distinct input records",
-    partial="Ellipsoid/LineOrientation/FreeLine have no documented closed form for every part of X_FM (surface point, "
-            "M-frame speeds): for these the documented facts are theorems (on_surface, speeds in M) and X_FM is tied by "
-            "correspondence to the coded formula; fitQ (atan2-based) is checked by implementation-side predicates only, "
-            "fitU is proved for the algebraic types",
+    partial="(i) proved about the executed model and tied by O-lines: code_eq_doc / X_isRot / speeds_meaning for Pin, Slider, "
+            "Cylinder, Screw, Translation, Planar, BendStretch, Universal, Gimbal, Bushing, Ball, Free, SphericalCoords, "
+            "Cantilever (driver answers X_FM with docX0, V_FM with H u); fitU (setUToFitVelocity to an ARBITRARY target, both "
+            "directions) for 13 types and the translation fit for 7 types are predicted by Spec.fitU / Spec.fitQtrans "
+            "(O fitU / O fitQt) and fitU_roundtrip is proved about those definitions.  (ii) predicate only: all atan2-based "
+            "setQToFitRotation/Transform fits (fit_q, fit_R), the partial entry points (fit_p, fit_w, fit_v), fits of "
+            "BendStretch, SphericalCoords, Ellipsoid, Cantilever (these are where the known findings are); Ellipsoid surface "
+            "point and LineOrientation/FreeLine X_FM use the coded form as docX0 (the header gives no closed form); "
+            "reverse_is_inverse is X^-1 X = 1 about the model's definition of reversal, the tie is the reversed records and "
+            "the rev_inverse_X/V predicates.  (iii) not covered: Custom/FunctionBased (C06), fits from targets produced by a "
+            "different mobilizer type",
     assumptions=["libm sin/cos/sqrt are trusted: angles enter the model as trig pairs (c,s) with c^2+s^2=1, 1/|q| as a parameter with oon^2 (q.q)=1",
                  "the jet lifts (d cos = -sin qdot, d sin = cos qdot, d(1/sqrt x) = -x'/(2 x^{3/2})) are definitions (DESIGN.md §3 item 6)",
                  "docX_FM is the reading of MobilizedBody_<Type>.h (trusted-base item 8)"],
